@@ -783,3 +783,29 @@ CAST = "formulaic/utils/cast.py"
 V("C02-ascolumns-shift", "C02", ["C02.R9"], [(CAST, "    return {column_names[i]: data[:, i] for i in range(data.shape[1])}\n\n\n@as_columns.register\n@propagate_metadata\ndef _(data: scipy.sparse.csc_matrix)", "    return {column_names[i]: data[:, i - 1] for i in range(data.shape[1])}\n\n\n@as_columns.register\n@propagate_metadata\ndef _(data: scipy.sparse.csc_matrix)")])
 V("C02-format-reduced-always", "C02", ["C02.R9"], [("formulaic/materializers/types/factor_values.py", "self.format_reduced if self.reduced and self.format_reduced else self.format", "self.format_reduced if self.format_reduced else self.format")])
 V("C01-nested-uses-root-parser", "C01", ["C01.R7"], [(FORMULA, 'parser=(self._parser if key == "root" else self._nested_parser),', "parser=self._parser,")])
+
+# ----------------------------------------------------------------------------------------- generic forwarding (F1) and wave-3 distilled variants
+V("C11-apply-sparse-dropped", "C11", ["C11.F1"], [(CONTRASTS, "        coding_matrix = self.get_coding_matrix(levels, reduced_rank, sparse=sparse)\n        return (dummies if sparse else dummies.values) @ coding_matrix", "        coding_matrix = self.get_coding_matrix(levels, reduced_rank)\n        return (dummies if sparse else dummies.values) @ coding_matrix")])
+V("C11-state-coef-reduced-dropped", "C11", ["C11.R8"], [(CONTRASTS, "        return self.contrasts.get_coefficient_matrix(\n            self.levels, reduced_rank=reduced_rank, sparse=sparse\n        )", "        return self.contrasts.get_coefficient_matrix(\n            self.levels, sparse=sparse\n        )")], "seed C11-t3")
+V("C05-fromspec-context-dropped", "C05", ["C05.R5"], [(SPEC, "            formula = Formula.from_spec(obj, context=context)", "            formula = Formula.from_spec(obj)")])
+V("C01-fromspec-context-dropped", "C01", ["C01.R7"], [(FORMULA, "                .get_terms(spec, context=context)\n", "                .get_terms(spec)\n")])
+V("C14-tokenize-empty-token", "C14", ["C14.R10"], [(TOKENIZE, "            quote_context.pop(-1)\n            if token:\n                if quote_context:\n                    token.update(char, i)\n                else:\n                    yield token\n                    token = Token(source=formula)\n            continue", "            quote_context.pop(-1)\n            if quote_context:\n                token.update(char, i)\n            else:\n                yield token\n                token = Token(source=formula)\n            continue")], "seed C14-t1")
+V("C01-closer-any-opener", "C01", ["C01.R9"], [(T2A, "                if operator_stack and operator_stack[-1].token == starting_token:", "                if operator_stack and operator_stack[-1].token in CONTEXT_OPENERS:")], "seed C01-t3")
+V("C17-insert-fast-path", "C17", ["C17.R5"], [(PUTILS, "    tokens = list(tokens)\n\n    if not isinstance(pattern, re.Pattern):", "    tokens = list(tokens)\n    if not tokens_to_add:\n        yield from tokens\n        return\n\n    if not isinstance(pattern, re.Pattern):")], "seed C17-t2")
+V("C17-keywords-not-walked", "C17", ["C17.R4"], [("formulaic/utils/variables.py", "            todo.extend(node.keywords)\n", "")], "seed C17-t3")
+V("C13-wrapper-kwargs-dropped", "C13", ["C13.R3"], [(STATEFUL, "                        datum, *args, _state=statum, **extra_params, **kwargs\n", "                        datum, *args, _state=statum, **extra_params\n")], "seed C13-t1")
+V("C04-standardize-undecorated", "C04", ["C04.R1"], [("formulaic/transforms/patsy_compat.py", "@stateful_transform\ndef standardize(", "def standardize(")], "seed C04-t1")
+V("C18-guard-demorgan", "C18", ["C18.R2"], [(BASE, "        if len(output) != 1 or len(na_action) != 1 or len(ensure_full_rank) != 1:", "        if not (len(output) == 1 or len(na_action) == 1 or len(ensure_full_rank) == 1):")], "seed C18-t2")
+V("C18-bs-knots-alias", "C18", ["C18.R3"], [(BS, "        knots = [] if knots is None else list(knots)", "        knots = [] if knots is None else (knots if isinstance(knots, list) else list(knots))")], "seed C18-t3")
+V("C18-sas-memoize", "C18", ["C18.R7"], [(CONTRASTS, "        if self.base is UNSET:\n            return len(levels) - 1", "        if self.base is UNSET:\n            self.base = levels[-1]")], "seed C18-t1")
+V("C07-empty-part-index", "C07", ["C07.R7"], [(PANDAS, "            if drop_rows:\n                pandas_index = pandas_index.delete(drop_rows)\n\n        # Special case no columns to empty csc_matrix, array, or DataFrame\n        if not cols:\n            values = numpy.empty((self.nrows - len(drop_rows), 0))\n            if spec.output == \"sparse\":\n                return spsparse.csc_matrix(values)\n            if spec.output == \"numpy\":\n                return values\n            return pandas.DataFrame(index=pandas_index)\n",
+  "\n        # Special case no columns to empty csc_matrix, array, or DataFrame\n        if not cols:\n            values = numpy.empty((self.nrows - len(drop_rows), 0))\n            if spec.output == \"sparse\":\n                return spsparse.csc_matrix(values)\n            if spec.output == \"numpy\":\n                return values\n            return pandas.DataFrame(index=pandas_index)\n        if spec.output == \"pandas\" and drop_rows:\n            pandas_index = pandas_index.delete(drop_rows)\n")], "seed C07-t1")
+V("C07-should-simplify-late", "C07", ["C07.R3"], [(BASE, "        should_simplify = isinstance(spec, ModelSpec)\n        model_specs: ModelSpecs = self._prepare_model_specs(spec)\n", "        model_specs: ModelSpecs = self._prepare_model_specs(spec)\n        should_simplify = not model_specs._has_structure\n")], "seed C07-t3")
+V("C09-record-only-nonempty", "C09", ["C09.R4"], [(BASE, "                spec.encoder_state[factor.expr] = (factor.metadata.kind, encoder_state)\n", "                if encoder_state:\n                    spec.encoder_state[factor.expr] = (factor.metadata.kind, encoder_state)\n")], "seed C09-t1")
+V("C09-narwhals-state-dropped", "C09", ["C09.R4"], [(NARWHALS, "                _metadata=metadata,\n                _state=encoder_state,\n", "                _metadata=metadata,\n")], "seed C09-t3")
+V("C06-findnulls-axis0", "C06", ["C06.R7"], [(NULLS, "numpy.flatnonzero(numpy.any(numpy.isnan(values), axis=1))", "numpy.flatnonzero(numpy.any(numpy.isnan(values), axis=0))")], "seed C06-t2")
+V("C06-mutable-default", "C06", ["C06.R1"], [(SPEC, "        context: Optional[Mapping[str, Any]] = None,\n        drop_rows: Optional[set[int]] = None,\n        **attr_overrides: Any,\n    ) -> ModelMatrix:", "        context: Optional[Mapping[str, Any]] = None,\n        drop_rows: set[int] = set(),\n        **attr_overrides: Any,\n    ) -> ModelMatrix:")], "seed C06-t3")
+V("C19-flatten-public-iter", "C19", ["C19.R1"], [(STRUCT, "        for value in self._structure.values():\n            yield from flatten_obj(value)", "        for value in self:\n            yield from flatten_obj(value)")], "seed C19-t1")
+V("C19-withlayers-drops-self", "C19", ["C19.R2"], [(LMAP, "        new_layers = [*layers, self] if prepend else [self, *layers]", "        new_layers = [*layers, self] if prepend else [*self._layers, *layers]")], "seed C19-t2")
+V("C19-slice-ordering", "C19", ["C19.R4"], [(FORMULA, "            return self.__class__(self.__terms[key], _ordering=self.ordering)", "            return self.__class__(self.__terms[key])")], "seed C19-t3")
+V("C03-poly-names-constant", "C11", ["C11.R2"], [(CONTRASTS, "                self.NAME_ALIASES[d] if d in self.NAME_ALIASES else f\"^{d}\"\n", "                self.NAME_ALIASES.get(d, \"^{d}\")\n")], "seed C03-t1")
